@@ -161,9 +161,13 @@ U("c15_deindent_line", ["C15", "C01"], "h_deindent", ["C15/deindent.c"], ["mmd.c
   native=None, min_obligations=20, assumptions=[NOFAIL, "children of the line are contiguous (tokenizer, assumed); 1..3 children, all spans symbolic"])
 
 # ---- standalone superscript / subscript: the marker is stretched over the word, the covered tokens pruned, the next one cut
-for _ty, _st in (("SUPERSCRIPT", 0), ("SUBSCRIPT", 0)):
-    U("c15_standalone_%s_at%d" % (_ty.lower(), _st), ["C15", "C16", "C01"], "h_ambi_sup", ["C15/ambi_sup.c"], ["mmd.c", "char.c"], plain=True, lib=(), kind="bounded",
-      defines=["-DNSRC=5", "-DNT=3", "-DSTART=%d" % _st, "-DKIND_PLAIN", "-DTOKTYPE=" + _ty], bounds={"following token kinds": "TEXT_PLAIN", "source bytes<=": 5, "marker position": _st, "following tokens<=": 3, "unwind": 9},
-      cbmc_flags=["--unwind", "8", "--unwindset", "mmd_assign_ambidextrous_tokens_in_block.14:6", "--unwinding-assertions"], timeout=600, cost=40,   # .14 = the outer while (t != NULL) over the chain (4 tokens)
+#      (one unit per concrete layout: marker position + lengths of the following plain-text tokens; source bytes symbolic)
+for _ty, _st, _ls in (("SUPERSCRIPT", 0, (1, 1, 2)), ("SUPERSCRIPT", 0, (1, 1, 3)), ("SUPERSCRIPT", 1, (1, 2, 2)), ("SUPERSCRIPT", 1, (2, 1, 2)), ("SUPERSCRIPT", 0, (3, 0, 0)), ("SUPERSCRIPT", 1, (2, 3, 0)),
+                      ("SUBSCRIPT", 0, (1, 1, 2)), ("SUBSCRIPT", 1, (1, 2, 2)), ("SUBSCRIPT", 1, (2, 3, 0))):
+    _n = _st + 1 + sum(_ls)
+    U("c15_standalone_%s_at%d_l%d%d%d" % ((_ty.lower(), _st) + _ls), ["C15", "C16", "C01"], "h_ambi_sup", ["C15/ambi_sup.c"], ["mmd.c", "char.c"], plain=True, lib=(), kind="bounded",
+      defines=["-DNSRC=%d" % _n, "-DNT=3", "-DSTART=%d" % _st, "-DKIND_PLAIN", "-DFIXED_LAYOUT", "-DTOKTYPE=" + _ty] + ["-DL%d=%d" % (i + 1, l) for i, l in enumerate(_ls)],
+      bounds={"source bytes": _n, "marker position": _st, "following plain-text tokens (lengths)": list(_ls), "unwind": _n + 3},
+      cbmc_flags=["--unwind", str(_n + 3), "--unwindset", "mmd_assign_ambidextrous_tokens_in_block.14:6", "--unwinding-assertions"], timeout=600, cost=10,   # .14 = the outer while (t != NULL) over the chain (<= 4 tokens)
       functions=["mmd_assign_ambidextrous_tokens_in_block (SUPERSCRIPT/SUBSCRIPT arm)"], callees={"char_is_*": "body (real table)", "tokens_prune, token_new": "contract stubs (the range leaves the chain; a fresh token with the given span)"},
       native=None, min_obligations=20, assumptions=[NOFAIL, "the chain is contiguous, non-empty tokens inside the NUL-terminated source (lexer contract, assumed)"])
